@@ -120,6 +120,6 @@ CrcKnown == CrcXmodem(<<49, 50, 51, 52, 53, 54, 55, 56, 57>>) = 12739      \* "1
 \* constant sets that a .cfg file cannot spell (sequences)
 NamesOne == {<<70>>}
 NamesTwo == {<<70>>, <<71, 50>>}
-NamesOrder == {<<65>>, <<97, 98>>, <<66>>, <<65, 66>>, <<98, 33>>}
+NamesOrder == {<<65>>, <<97, 98>>, <<66>>, <<65, 66>>, <<98, 33>>, <<60, 65>>, <<65, 39>>}      \* incl. < and ' (word anchors in a GNU regex when escaped)
 Emit == (EmitAt = 0 \/ Len(cat) = EmitAt) => PrintT(<<"CASE", ToJson(cat)>>)
 =============================================================================
